@@ -33,9 +33,30 @@ func (g *G) genStruct(pkg string, exported bool) *Struct {
 		s.Name = g.name("T")
 	}
 	n := g.r.Range(1, 5)
+	// now and then a wide type (its field names get consecutive interned indexes) and, after one, types
+	// that reuse two of its names sixteen apart: those collide in a field table of sixteen slots
+	wide := g.r.Chance(1, 8)
+	wideBase := g.r.Intn(24)
+	if wide {
+		n = g.r.Range(17, 24)
+	}
+	var reuse []string
+	if !wide && g.r.Chance(1, 2) {
+		for _, o := range g.structs {
+			if len(o.Fields) >= 17 {
+				j := g.r.Intn(len(o.Fields) - 16)
+				reuse = []string{o.Fields[j].Name, o.Fields[j+16].Name}
+				if n < 2 {
+					n = 2
+				}
+			}
+		}
+	}
 	for i := 0; i < n; i++ {
 		var t *Type
 		switch k := g.r.Intn(12); {
+		case wide && k < 10:
+			t = g.scalarType()
 		case k < 7:
 			t = g.scalarType()
 		case k < 9:
@@ -54,7 +75,12 @@ func (g *G) genStruct(pkg string, exported bool) *Struct {
 		// field names come from a shared pool, so that different struct types reuse names and the
 		// interned indexes of one type's fields are not consecutive (collisions in the field table)
 		name := ""
-		for {
+		if wide {
+			name = fmt.Sprintf("F%d", wideBase+i)
+		} else if i < len(reuse) {
+			name = reuse[i]
+		}
+		for name == "" {
 			name = fmt.Sprintf("F%d", g.r.Intn(48))
 			dup := false
 			for _, f := range s.Fields {
@@ -62,8 +88,8 @@ func (g *G) genStruct(pkg string, exported bool) *Struct {
 					dup = true
 				}
 			}
-			if !dup {
-				break
+			if dup {
+				name = ""
 			}
 		}
 		s.Fields = append(s.Fields, Field{Name: name, T: t})
@@ -219,6 +245,21 @@ func (g *G) emitFunc(f *Func, stmts int) {
 	// params must be "used"
 	for _, p := range f.Params {
 		g.line("_ = %s", p.Name)
+	}
+	if f.NilSafe {
+		g.line("if r == nil {")
+		g.ind++
+		if !f.Pure {
+			g.use("fmt")
+			g.line("fmt.Println(%q)", "nil receiver in "+f.Name)
+		}
+		var ls []string
+		for _, rt := range f.Results {
+			ls = append(ls, g.typed(rt, g.literal(rt), true))
+		}
+		g.line("return %s", strings.Join(ls, ", "))
+		g.ind--
+		g.line("}")
 	}
 	if f.Rec {
 		g.line("if p0 <= 0 {")
@@ -491,8 +532,14 @@ func (g *G) genPackageBody(exported bool, nStructs, nFuncs int) {
 			}
 			g.uid++
 			g.callableN = len(g.funcs)
+			f.NilSafe = len(f.Results) > 0 && g.r.Chance(1, 3)
+			for _, rt := range f.Results {
+				if !rt.IsScalar() {
+					f.NilSafe = false
+				}
+			}
 			g.emitFunc(f, g.r.Range(1, 4))
-			s.Methods = append(s.Methods, &Method{Name: f.Name, Params: paramTypes(f), Results: f.Results})
+			s.Methods = append(s.Methods, &Method{Name: f.Name, Params: paramTypes(f), Results: f.Results, NilSafe: f.NilSafe})
 		}
 	}
 	g.callableN = len(g.funcs)
